@@ -288,6 +288,11 @@ func (g *gen) wdTx() TxSpec {
 			w.DupIn = true
 		}
 	}
+	if w.Ver == 0 && r.Bool(0.35) {
+		w.Typed = true
+	} else if r.Bool(0.2) {
+		w.Again = true
+	}
 	if g.p.Knob("ccreturns", 0) > 0 && r.Bool(0.45) {
 		// a deposit return: legacy (0), Schnorr (1), or a version nobody defined
 		w.Ret = 1 + r.Pick(5, 2, 3)
